@@ -132,7 +132,9 @@ theorem runItems_stOv (conv : Conv) (pkgs pkgs' : Str → Pkg) (s : Schema) (bag
         ls'.stack = [m] ∧ ls'.schema = s) ∧
     (∀ e, runItems (stOv conv pkgs s bag) items = .error e → ∃ e', runItems (stOv conv pkgs' s bag) items = .error e') := by
   have h1 := runItems_evalB conv s items (stOv conv pkgs s bag) (newMatcher s.top none bag) [] rfl rfl rfl
+    (stOv_bagSchema conv pkgs s bag)
   have h2 := runItems_evalB conv s items (stOv conv pkgs' s bag) (newMatcher s.top none bag) [] rfl rfl rfl
+    (stOv_bagSchema conv pkgs' s bag)
   cases hev : evalItemsB conv s (newMatcher s.top none bag) items with
   | error e =>
     rw [hev] at h1 h2
